@@ -2,10 +2,50 @@
 from . import c01
 
 
+def wide_stateful_leg(ctx):
+    """Shipped callables that carry their own random state (jumping RFI path, jittered pulse profile) on frames wider than
+    4096 / 2^16 columns with sub-sample integration: a bounded injection must equal the unbounded one restricted to the
+    range when both are given identically seeded callables, and the unbounded one must be reproducible."""
+    import numpy as np
+    import setigen as stg
+
+    def comps(fr, seed):
+        path = stg.simple_rfi_path(f_start=fr.get_frequency(6000), drift_rate=0.2 * fr.unit_drift_rate, spread=400 * fr.df,
+                                   spread_type="uniform", rfi_type="random_walk", seed=seed)
+        tp = stg.periodic_gaussian_t_profile(pulse_width=1.5, period=3.0, phase=0.4, pulse_offset_width=0.6, pulse_direction="rand",
+                                             amplitude=2.0, level=3.0, min_level=0.5, seed=seed + 1)
+        return path, tp, stg.gaussian_f_profile(width=40 * fr.df), stg.constant_bp_profile(level=1.0)
+
+    for F, fsub in ((9000, 2), (70000, 1)) if not ctx.quick() else ((9000, 2),):
+        for asc in (True, False):
+            mk = lambda: stg.Frame(fchans=F, tchans=6, df=2.0, dt=1.0, fch1=1.0e9 if asc else 1.0e9 + 2.0 * (F - 1), ascending=asc, t_start=0.0, seed=3)
+            fr = mk()
+            unb = fr.add_signal(*comps(fr, 11), integrate_f_profile=fsub > 1, f_subsamples=fsub)
+            fr2 = mk()
+            again = fr2.add_signal(*comps(fr2, 11), integrate_f_profile=fsub > 1, f_subsamples=fsub)
+            ctx.evaluations += 1
+            ctx.mark(("wide-stateful", F, fsub, asc))
+            args = {"F": F, "fsub": fsub, "asc": asc, "action": "AddSignalWideStateful"}
+            if not np.array_equal(unb, again):
+                ctx.violation("Injection", "shipped:wide_stateful.reproducible", args, {"max_abs_diff": float(np.max(np.abs(unb - again)))})
+            scale = float(np.max(np.abs(unb))) or 1.0
+            for lo, hi in ((5600, 6100), (6300, 6900), (4000, 8500)):
+                fr3 = mk()
+                bnd = fr3.add_signal(*comps(fr3, 11), bounding_f_range=(fr3.get_frequency(lo), fr3.get_frequency(hi)),
+                                     integrate_f_profile=fsub > 1, f_subsamples=fsub)
+                ctx.evaluations += 1
+                if np.max(np.abs(bnd[:, lo:hi] - unb[:, lo:hi])) > 1e-9 * scale or np.any(bnd[:, :lo] != 0) or np.any(bnd[:, hi:] != 0):
+                    a2 = dict(args)
+                    a2["range"] = "[%d, %d)" % (lo, hi)
+                    ctx.violation("Injection", "shipped:wide_stateful.bounded_is_restriction", a2,
+                                  {"max_abs_diff": float(np.max(np.abs(bnd[:, lo:hi] - unb[:, lo:hi]))), "scale": scale})
+
+
 def run(ctx):
     ctx.notes["rule"] = ("behaviours of 1-3 injections from Injection.tla over frames with prior content (pixel identities in "
                          "float32, every 10th loaded from a .fil), all bounding-range classes, both orders; distinct = "
                          "distinct (geometry, configuration sequence)")
     c01.run_for(ctx, "C06")
+    wide_stateful_leg(ctx)
     from .frame_t import frame_trace_leg
     frame_trace_leg(ctx, "C06")
